@@ -58,13 +58,65 @@ def select_tasks(reg, prop):
     return items
 
 
-def run_tasks(items, timeout_ms, jobs=16):
+def _worker(item, conn):
+    try:
+        conn.send(_run_one(item))
+    except Exception as e:  # pragma: no cover
+        conn.send({"task": item[1], "task_kind": item[0], "function": item[1], "out_of_reach": f"engine-error: {e}",
+                   "obligations": [], "paths": 0, "variants": 0, "edges": [], "assumptions": [], "gen_s": 0, "solve_s": 0, "describe": None})
+    finally:
+        conn.close()
+
+
+def run_tasks(items, timeout_ms, jobs=16, task_wall_s=600):
+    """one process per task (a crashing or hanging task cannot take the others down)"""
     if not items:
         return []
-    work = [(k, key, timeout_ms) for k, key in items]
     ctxm = mp.get_context("fork")
-    with ctxm.Pool(min(jobs, len(work))) as pool:
-        return pool.map(_run_one, work, chunksize=1)
+    pending = [(k, key, timeout_ms) for k, key in items]
+    running = []
+    results = {}
+    order = [key for _, key in items]
+
+    def fail(item, why):
+        return {"task": item[1], "task_kind": item[0], "function": item[1], "out_of_reach": f"engine-error: {why}",
+                "obligations": [], "paths": 0, "variants": 0, "edges": [], "assumptions": [], "gen_s": 0, "solve_s": 0, "describe": None}
+
+    while pending or running:
+        while pending and len(running) < jobs:
+            item = pending.pop(0)
+            parent, child = ctxm.Pipe(duplex=False)
+            p = ctxm.Process(target=_worker, args=(item, child))
+            p.start()
+            child.close()
+            running.append((item, p, parent, time.time()))
+        still = []
+        for item, p, conn, t0 in running:
+            if conn.poll(0.01):
+                try:
+                    results[item[1]] = conn.recv()
+                except EOFError:
+                    results[item[1]] = fail(item, "worker died without a result")
+                p.join(5)
+                continue
+            if not p.is_alive():
+                if conn.poll(0.2):
+                    try:
+                        results[item[1]] = conn.recv()
+                    except EOFError:
+                        results[item[1]] = fail(item, f"worker died (exit code {p.exitcode})")
+                else:
+                    results[item[1]] = fail(item, f"worker died (exit code {p.exitcode})")
+                continue
+            if time.time() - t0 > task_wall_s:
+                p.kill()
+                results[item[1]] = fail(item, f"worker exceeded {task_wall_s}s")
+                continue
+            still.append((item, p, conn, t0))
+        running = still
+        if running:
+            time.sleep(0.02)
+    return [results[k] for k in order]
 
 
 def main(argv=None):
